@@ -179,10 +179,14 @@ pub fn run_case(tier: &str, seed: u64, idx: u64) -> CaseOut {
     let mut out = CaseOut::new();
     let mut rng = Rng::new(mix(&[seed, idx], "c01"));
     let n_ops = if tier == "quick" { 300 } else { rng.range(300, 2000) as usize };
-    let params = HistoryParams::generate(&mut rng, idx, n_ops);
+    // every 8th history keeps one WAL and one manifest alive across many reopens
+    let params = if idx % 8 == 5 { HistoryParams::long_wal(&mut rng, if tier == "quick" { 6000 } else { 12000 }) } else { HistoryParams::generate(&mut rng, idx, n_ops) };
     let mut oracle = GetOracle { prop: "C01", verified: 0 };
     let outcome = history::run(&mut out, &mut rng, &params, &mut oracle);
     let flushes = out.obs.get("note.version.install").copied().unwrap_or(0);
+    if params.keep_config_on_reopen && outcome.reopen_pattern.len() >= 3 && oracle.verified > 0 {
+        out.nontrivial(format!("long-wal/reopens{}", outcome.reopen_pattern.len().min(60) / 10 * 10));
+    }
     if outcome.max_level >= 1 && flushes >= 1 && oracle.verified > 0 {
         let mut h = DefaultHasher::new();
         outcome.shapes.hash(&mut h);
